@@ -538,6 +538,10 @@ func (af *AdaptationField) TransportPrivateData() ([]byte, error) {
 	if !hasTPD {
 		return nil, gots.ErrNoPrivateTransportData
 	}
+	if af.adaptationExtensionStart() > PacketSize {
+		// the length byte points past the packet
+		return nil, gots.ErrInvalidPacketLength
+	}
 	return af[af.transportPrivateDataStart():af.adaptationExtensionStart()], nil
 }
 
@@ -600,6 +604,10 @@ func (af *AdaptationField) AdaptationFieldExtension() ([]byte, error) {
 	}
 	if !hasAFC {
 		return nil, gots.ErrNoAdaptationFieldExtension
+	}
+	if af.adaptationExtensionStart() > PacketSize || af.stuffingStart() > PacketSize {
+		// a length byte points past the packet
+		return nil, gots.ErrInvalidPacketLength
 	}
 	return af[af.adaptationExtensionStart():af.stuffingStart()], nil
 }
